@@ -235,6 +235,23 @@ CHECKS["C09"] = dict(
     note=TRUST + "CubicSpline, the harmonic routines and the shipped angular rules by contract; the branch for radial nodes at the origin, the Cartesian loop and "
          "MolGrid.interpolate are bounded only.",
     technique="contract-based deductive verification of the composition (AST symbolic execution with recording callee contracts, loop contract, reduction matching, polynomial identities), z3; bounded band-limited oracles as labelled stand-in")
+CHECKS["C02"] = dict(
+    category="proof",
+    text="The code that carries the shipped data is under contract; the data itself is an ASSUMED contract inside the proof and is decided for every file by the "
+         "exhaustive native layer. Proved for all requests: AngularGrid._load_precomputed_angular_grid, for a symbolic (degree, size) pair of each method's table, "
+         "opens exactly one file named <method>_<degree>_<size>.npz in the package that ships that method's files (every table pair has such a file), never raises, "
+         "returns the file's points unchanged and one weight per point (both shipped weight layouts); AngularGrid.__init__, for a symbolic degree or size request, "
+         "every method, cache on/off, first construction and cache hit: asks the loader for the least supported pair not below the request, points = the file's, "
+         "weights = the file's x 4 pi exactly once for the two unit-normalised methods and x 1 otherwise, degree/size/method report the resolved pair; under the data "
+         "contract of the file the size and unit-sphere clauses are discharged, requests above the maximum are refused. EXHAUSTIVE native layer: all 450 shipped "
+         "(method, degree) pairs built five ways; size/degree pair, unit sphere, exactness for all (l,m) against an own Y_lm oracle (quick: full degree for files "
+         "<= 16000 points, else l <= 40; thorough: full degree).",
+    design="8/C02",
+    note=TRUST + "np.load / importlib.resources.files contracts assumed; the data contract of the 450 files (rows, unit norm, exactness) is assumed in the proof and enumerated "
+         "completely by the native layer; exactness of the constructed grid follows from entry-wise equality with the file by extensionality of finite sums; two recorded "
+         "data findings (Ahrens-Beylkin files).",
+    technique="contract-based deductive verification: AST symbolic execution of the loader and constructor with symbolic requests, data files as an assumed contract, z3; "
+              "exhaustive run-time contracts over all shipped files as the labelled bounded (complete) stand-in for the data")
 BOUNDED_ONLY = {
     "C09": ("8/C09", "band-limited decomposition/interpolation on atomic grids: angular integration, radial-component splines through knots, interpolant reproduces grid values, derivative self-consistency, polynomial reproduction, molecular interpolation"),
     "C07": ("8/C07", "molecular grid = weighted concatenation of atomic grids: index table, segments, weights = atweights x aim, views with store on/off, fan-out of from_size/from_preset/from_pruned against hand-built grids, default radial grids, end-to-end 1% clause on presets"),
